@@ -59,22 +59,24 @@ type apCase struct {
 	crealm string
 
 	// ticket defects
-	wrongKey     bool   // encrypt the ticket under a key that is not in the keytab
-	otherKvnoKey bool   // encrypt under the key of the other key version but label it with kvno
-	tktEtype     int32  // etype field of the ticket's EncryptedData (0 = as it should be)
-	tktRealm     string // realm field of the ticket ("" = realm)
-	tktSName     []string
-	tktKvno      int // -1 = as it should be; 0 = absent
-	invalid      bool
-	startOff     time.Duration // starttime = now + startOff (noStart: absent)
-	noStart      bool
-	endOff       time.Duration
-	startYears   int // starttime / endtime moved by whole years (beyond what a Duration can express)
-	endYears     int
-	caddr        []types.HostAddress
-	pac          string // "", "valid", "badsig", "malformed"
-	flipTkt      int    // flip this bit of the ticket ciphertext (-1 none)
-	truncTkt     int    // drop this many bytes from the end of the ticket ciphertext
+	wrongKey      bool   // encrypt the ticket under a key that is not in the keytab
+	otherKvnoKey  bool   // encrypt under the key of the other key version but label it with kvno
+	tktEtype      int32  // etype field of the ticket's EncryptedData (0 = as it should be)
+	tktRealm      string // realm field of the ticket ("" = realm)
+	tktSName      []string
+	tktKvno       int // -1 = as it should be; 0 = absent
+	invalid       bool
+	clearAppended bool          // the EncTicketPart appended in the clear to the ticket (see mintAPReq)
+	renewable     bool          // RENEWABLE flag set (renew-till is a day ahead in every case)
+	startOff      time.Duration // starttime = now + startOff (noStart: absent)
+	noStart       bool
+	endOff        time.Duration
+	startYears    int // starttime / endtime moved by whole years (beyond what a Duration can express)
+	endYears      int
+	caddr         []types.HostAddress
+	pac           string // "", "valid", "badsig", "malformed"
+	flipTkt       int    // flip this bit of the ticket ciphertext (-1 none)
+	truncTkt      int    // drop this many bytes from the end of the ticket ciphertext
 
 	// authenticator defects
 	aCname     []string
@@ -117,9 +119,12 @@ func (c apCase) describe() string {
 	add(c.otherKvnoKey, "otherkvnokey")
 	add(c.tktEtype != 0, fmt.Sprintf("tktetype=%d", c.tktEtype))
 	add(c.tktRealm != "", "tktrealm="+c.tktRealm)
+	add(c.crealm != d.crealm && len(c.cname) > 0, "crealm="+c.crealm)
 	add(c.tktSName != nil, "tktsname="+strings.Join(c.tktSName, "/"))
 	add(c.tktKvno != -1, fmt.Sprintf("tktkvno=%d", c.tktKvno))
 	add(c.invalid, "invalid")
+	add(c.clearAppended, "cleartext-encticketpart-appended")
+	add(c.renewable, "renewable")
 	add(c.noStart, "nostart")
 	add(c.startOff != d.startOff, fmt.Sprintf("start=%v", c.startOff))
 	add(c.endOff != d.endOff, fmt.Sprintf("end=%v", c.endOff))
@@ -188,6 +193,9 @@ func mintAPReqKey(m *Model, rng *RNG, c apCase, now time.Time) (messages.APReq, 
 	if c.invalid {
 		types.SetFlag(&fl, 7)
 	}
+	if c.renewable {
+		types.SetFlag(&fl, 8)
+	}
 	etp := messages.EncTicketPart{Flags: fl, Key: sessionKey, CRealm: c.crealm,
 		CName:    types.PrincipalName{NameType: c.cnt, NameString: c.cname},
 		AuthTime: now.Add(-time.Hour).Truncate(time.Second), EndTime: now.Add(c.endOff).AddDate(c.endYears, 0, 0).Truncate(time.Second),
@@ -217,6 +225,14 @@ func mintAPReqKey(m *Model, rng *RNG, c apCase, now time.Time) (messages.APReq, 
 				bufs = append(bufs, pacBuf{6, sigBuf(sty, false, rng)})
 			case 7:
 				bufs = append(bufs, pacBuf{7, sigBuf(sty, false, rng)})
+			case 10:
+				// PAC_CLIENT_INFO names the client in another letter case than the logon information does: what is
+				// reported to the application comes from the logon information (KERB_VALIDATION_INFO)
+				d := append([]byte{}, bf.data...)
+				if len(d) >= 12 && d[10] >= 'a' && d[10] <= 'z' {
+					d[10] -= 32
+				}
+				bufs = append(bufs, pacBuf{10, d})
 			default:
 				bufs = append(bufs, bf)
 			}
@@ -225,7 +241,7 @@ func mintAPReqKey(m *Model, rng *RNG, c apCase, now time.Time) (messages.APReq, 
 		if bad != "" {
 			return ap, nil, fmt.Errorf("pac signing: %s", bad)
 		}
-		switch c.pac {
+		switch strings.TrimSuffix(c.pac, "-second") {
 		case "badsig":
 			for i, bf := range bufs {
 				if bf.ty == 6 {
@@ -235,8 +251,14 @@ func mintAPReqKey(m *Model, rng *RNG, c apCase, now time.Time) (messages.APReq, 
 		case "malformed":
 			pb[0], pb[1], pb[2], pb[3] = 0xff, 0xff, 0xff, 0x7f
 		}
+		lastMintedPAC = append([]byte{}, pb...)
 		inner, _ := asn1.Marshal(types.AuthorizationData{{ADType: 128, ADData: pb}})
 		etp.AuthorizationData = types.AuthorizationData{{ADType: 1, ADData: inner}}
+		if strings.HasSuffix(c.pac, "-second") {
+			// another AD-IF-RELEVANT element (of a type the service does not know) in front of the one with the PAC
+			other, _ := asn1.Marshal(types.AuthorizationData{{ADType: 141, ADData: []byte{1, 2, 3}}})
+			etp.AuthorizationData = types.AuthorizationData{{ADType: 1, ADData: other}, {ADType: 1, ADData: inner}}
+		}
 	}
 	eb, err := asn1.Marshal(etp)
 	if err != nil {
@@ -308,5 +330,41 @@ func mintAPReqKey(m *Model, rng *RNG, c apCase, now time.Time) (messages.APReq, 
 	}
 	ap = messages.APReq{PVNO: 5, MsgType: 14, APOptions: types.NewKrbFlags(), Ticket: tkt, EncryptedAuthenticator: ea}
 	b, err := ap.Marshal()
+	if err == nil && c.clearAppended {
+		// the EncTicketPart once more, in the clear, as a fifth element of the Ticket SEQUENCE (the decoder fills
+		// Ticket.DecryptedEncPart from it: nothing the service may ever rely on)
+		clear, e1 := asn1.Marshal(etp)
+		tb, e2 := tkt.Marshal()
+		eb2, e3 := ea.Marshal()
+		if e1 == nil && e2 == nil && e3 == nil {
+			_, app := derSplit(tb)
+			_, seq := derSplit(app)
+			newTkt := tlv(0x61, tlv(0x30, seq, clear))
+			b = tlv(0x6e, tlv(0x30, tlv(0xa0, []byte{2, 1, 5}), tlv(0xa1, []byte{2, 1, 14}), tlv(0xa2, []byte{3, 5, 0, 0, 0, 0, 0}), tlv(0xa3, newTkt), tlv(0xa4, eb2)))
+		}
+	}
 	return ap, b, err
+}
+
+// the PAC of the AP-REQ minted last (for comparing what the service reports with what the PAC holds)
+var lastMintedPAC []byte
+
+// derSplit returns the tag and the contents of the TLV at the start of b (definite lengths)
+func derSplit(b []byte) (byte, []byte) {
+	if len(b) < 2 {
+		return 0, nil
+	}
+	n, p := int(b[1]), 2
+	if b[1] >= 0x80 {
+		k := int(b[1] & 0x7f)
+		n = 0
+		for i := 0; i < k && p < len(b); i++ {
+			n = n<<8 | int(b[p])
+			p++
+		}
+	}
+	if p+n > len(b) {
+		n = len(b) - p
+	}
+	return b[0], b[p : p+n]
 }
